@@ -638,6 +638,13 @@ class Scheduler:
                     # State is None if this is not the main thread
                     return JobState.ERROR
 
+                if state == JobState.WAITING and job.unsatisfied == 0:
+                    # The start was aborted, but all the dependencies became
+                    # available again in the meantime (the notification
+                    # arrived while the locks were being released): try again
+                    state = JobState.READY
+                    job._readyEvent.set()
+
                 job.state = state
 
         for listener in self.listeners:
